@@ -850,7 +850,7 @@ impl Prop for C15 {
         "C15"
     }
     fn cases(&self) -> (u64, u64) {
-        (60_000, 1_500_000)
+        (200_000, 1_500_000)
     }
     fn rule(&self) -> &'static str {
         "choice bytes -> broad definition whose completer candidates, descriptions, groups, file \
